@@ -63,6 +63,81 @@ pub fn run(ctx: &mut Ctx, replay: Option<&str>) {
             flows.push((f, wild));
         }
     }
+    // selections over long arrays and large objects (judged on the implementation alone: the extracted model is quadratic in the
+    // number of disclosures). AllLevels; the selection names the container and k scalar elements / members of it: the presentation
+    // carries exactly 1 + k disclosures and verifies to exactly those elements / members
+    if replay.is_none() {
+        let now = now();
+        for (k, n) in (if ctx.tier == Tier::Quick { vec![24usize, 40, 130, 300] } else { vec![8, 24, 25, 40, 64, 65, 130, 300, 1000] }).into_iter().enumerate() {
+            let mut r = ctx.rng.fork(6_000_000 + k as u64);
+            let arr: Vec<Value> = (0..n).map(|i| if i % 9 == 2 { json!({"sensor": i}) } else if i % 13 == 5 { json!([i]) } else { json!(format!("e{}", i)) }).collect();
+            let obj: serde_json::Map<String, Value> = (0..n).map(|i| (format!("m{:04}", i), if i % 11 == 3 { json!({"in": i}) } else { json!(i) })).collect();
+            let claims = json!({"iss": "https://issuer.example", "exp": now + 100000, "readings": arr, "o": obj});
+            let a = IssueArgs { claims: claims.clone(), strategy: Strategy::All, holder: None, decoy: k % 2 == 0, fmt: if k % 2 == 0 { Fmt::Compact } else { Fmt::Json }, key: crate::keys::KeyId::Hmac1, alg: Some("HS256".into()), queue: None };
+            let issued = issue(&a);
+            ctx.impl_calls += 1;
+            let s = match issued.out.ok() {
+                Some(s) => s.clone(),
+                None => continue,
+            };
+            let scalar_idx: Vec<usize> = (0..n).filter(|i| i % 9 != 2 && i % 13 != 5).collect();
+            let scalar_mem: Vec<usize> = (0..n).filter(|i| i % 11 != 3).collect();
+            // the picks: the first, the last, around the middle, a few random ones
+            let mut pick_i: Vec<usize> = vec![scalar_idx[0], *scalar_idx.last().unwrap(), scalar_idx[scalar_idx.len() / 2]];
+            let mut pick_m: Vec<usize> = vec![scalar_mem[0], *scalar_mem.last().unwrap(), scalar_mem[scalar_mem.len() / 2]];
+            for _ in 0..4 {
+                pick_i.push(*r.pick(&scalar_idx));
+                pick_m.push(*r.pick(&scalar_mem));
+            }
+            pick_i.sort();
+            pick_i.dedup();
+            pick_m.sort();
+            pick_m.dedup();
+            // the array selection stops after the last pick (shorter than the array) or runs past its end (longer)
+            let len = if k % 2 == 0 { pick_i.last().unwrap() + 1 } else { n + 3 };
+            let sel_arr: Vec<Value> = (0..len).map(|i| json!(pick_i.contains(&i))).collect();
+            let sel_obj: serde_json::Map<String, Value> = pick_m.iter().rev().map(|i| (format!("m{:04}", i), json!(true))).collect();
+            for (which, sel, expect_n, expect_claims) in [
+                ("array", json!({"readings": sel_arr}), 1 + pick_i.len(), json!({"iss": "https://issuer.example", "exp": now + 100000, "readings": pick_i.iter().map(|i| json!(format!("e{}", i))).collect::<Vec<_>>()})),
+                ("object", json!({"o": sel_obj}), 1 + pick_m.len(), json!({"iss": "https://issuer.example", "exp": now + 100000, "o": pick_m.iter().map(|i| (format!("m{:04}", i), json!(i))).collect::<serde_json::Map<String, Value>>()})),
+            ] {
+                let h = holder_session(&s, a.fmt, &[PresentArgs::plain(sel.as_object().cloned().unwrap())]);
+                ctx.impl_calls += 2;
+                ctx.evaluations += 1;
+                ctx.oracle_checks += 1;
+                ctx.count("stream.sizes_direct");
+                let case = json!({"sized_selection": {"container": which, "size": n, "picked": if which == "array" { json!(pick_i) } else { json!(pick_m) }, "fmt": a.fmt.name(), "decoy": a.decoy, "selection_longer_than_array": k % 2 == 1}});
+                let pres = h.calls.first().and_then(|c| c.out.ok().cloned());
+                let mut problems = vec![];
+                match pres.as_ref().and_then(|p| split(a.fmt, p)) {
+                    Some(pp) => {
+                        if pp.disclosures.len() != expect_n {
+                            problems.push(format!("{} disclosures presented for a selection of the container and {} of its scalar parts", pp.disclosures.len(), expect_n - 1));
+                        }
+                        let v = verify(&VerifyArgs { input: pres.clone().unwrap(), fmt: a.fmt, resolver: Resolver::always(a.key), aud: None, nonce: None });
+                        match &v.out {
+                            Outcome::Ok(c) => {
+                                let same = match (c.as_object(), expect_claims.as_object()) {
+                                    (Some(x), Some(y)) => x.len() == y.len() && y.iter().all(|(k, v)| x.get(k) == Some(v)),
+                                    _ => false,
+                                };
+                                if !same {
+                                    problems.push("the presentation does not verify to exactly the selected parts".to_string());
+                                }
+                            }
+                            other => problems.push(format!("the presentation is rejected by the verifier ({})", other.class())),
+                        }
+                    }
+                    None => problems.push(format!("no presentation: {}", h.calls.first().map(|c| c.out.describe()).unwrap_or(h.new.describe()))),
+                }
+                if problems.is_empty() {
+                    ctx.nontrivial(&case);
+                } else {
+                    ctx.violation("oracle", "present", &format!("selection over a {} of {}: {}", which, n, problems[0]), case, json!({"problems": problems}), json!({"disclosures": expect_n, "claims": expect_claims}));
+                }
+            }
+        }
+    }
     let mut reqs = vec![];
     let mut runs = vec![];
     for (f, _) in &flows {
